@@ -189,6 +189,7 @@ func (c *compiler) enterFunc(name string) {
 func compilePkgs(g *lookup, pkgs []*token, optimize bool) (ins []instruction, slots int, err error) {
 	locals := newLookup()
 	for _, tok := range pkgs {
+		declareFuncs(g, tok)
 		cmp := &compiler{
 			Globals:  g,
 			Locals:   locals,
@@ -204,6 +205,23 @@ func compilePkgs(g *lookup, pkgs []*token, optimize bool) (ins []instruction, sl
 	}
 	return ins, slots, nil
 
+}
+
+// declareFuncs enters the names of a package's functions into the table of globals before any body is compiled: a
+// function named like a builtin (println, len, ...) then hides the builtin in every body of the package, whatever the
+// order and the files of the declarations - as a reference to any other function that is declared further down does
+func declareFuncs(g *lookup, pkg *token) {
+	export := ""
+	for _, tok := range pkg.Tokens {
+		if tok.Symbol == "package" && len(tok.Tokens) > 0 && tok.Tokens[len(tok.Tokens)-1].Text != "" {
+			export = tok.Tokens[len(tok.Tokens)-1].Text + "." // (what expPrefix puts in front of a package-level name)
+		}
+	}
+	for _, tok := range pkg.Tokens {
+		if tok.Symbol == "function" && len(tok.Tokens) > 0 {
+			g.Index(export + tok.Tokens[0].Text)
+		}
+	}
 }
 
 func compile(g *lookup, tok *token, optimize bool) (ins []instruction, slots int, err error) {
@@ -677,7 +695,7 @@ func (c *compiler) compile(tok *token) []instruction {
 				typ = sliceType(typeFromToken(c, name.Tokens[0]))
 			}
 			res = append(res, instruction{Code: codeConvert, A: reg(typ)})
-		} else if code := builtinMap[tok.Tokens[callName].Text]; code != 0 {
+		} else if code := builtinMap[tok.Tokens[callName].Text]; code != 0 && !c.declared(tok.Tokens[callName]) {
 			ellipsis := 0
 			args := tok.Tokens[callArguments].Tokens
 			if len(args) > 0 && args[len(args)-1].Symbol == "..." {
@@ -1071,6 +1089,12 @@ func (c *compiler) compileAll(tokens []*token) []instruction {
 		res = append(res, c.compile(t)...)
 	}
 	return res
+}
+
+// declared reports whether the program binds the name where it is used: a local, a parameter, or a package-level
+// name. Such a binding hides the builtin of that name (len, copy, delete, append, panic)
+func (c *compiler) declared(name *token) bool {
+	return name.Symbol == "(name)" && (c.Locals.Exists(name.Text) || c.Globals.Exists(c.expPrefix(name.Text)))
 }
 
 // hasCall reports whether evaluating the expression may call a function or store a value (an assignment nested in an
